@@ -22,6 +22,9 @@ TStep == /\ l <= Len(Ev)
          /\ Apply([m |-> Cur.m, a |-> Cur.a, b |-> Cur.b])
          /\ Cur.ok                                   \* no exception escaped
          /\ Cur.long = Verdicts' /\ Cur.fresh = Verdicts' /\ Cur.again = Verdicts'
+         \* the checker's own entry point (one checker, all contexts prepared first): same verdicts for the
+         \* inputs whose spent output is known
+         /\ \A p \in 1..Len(ins') : Cur.known[p] => Cur.checker[p] = Verdicts'[p]
          /\ Cur.long_bad = BadCount' /\ Cur.fresh_bad = BadCount'
          /\ l' = l + 1 /\ UNCHANGED tid
 TSpec == TInit /\ [][TStep]_tvars
